@@ -4,8 +4,8 @@ import Model.C01Spec
 Oracle handlers for C01.
 
 * `C01.get    cfg now desc key op api | ringTokens ids maxErrors err`
-  - diff : (a) the observed `ringTokens` is what `GetTokens` (loser-tree merge) yields for SOME map
-           iteration order; (b) the model's `getWith` on that token circle equals the observation.
+  - diff : (a) the observed `ringTokens` is what the model's `GetTokens` (loser-tree merge) yields;
+           (b) the model's `getWith` on that token circle equals the observation.
   - judge: the declarative `specGet` (computed from the descriptor only) against the observation:
            fails-iff, replica set (as a set), error tolerance.
 * `C01.merge  lists | merged`  : `ring.MergeTokens` vs `loserMerge`; judge: sorted union of the inputs.
@@ -22,15 +22,9 @@ def parseCfg (s : String) : Option Cfg :=
 
 def showIds (l : List Inst) : String := if l.isEmpty then "-" else ",".intercalate (l.map (showStr ·.id))
 
-def perms : List α → List (List α)
-  | [] => [[]]
-  | x :: xs => (perms xs).flatMap fun p => (List.range (p.length + 1)).map fun k => p.take k ++ x :: p.drop k
-
-/-- is `obs` a possible result of `Desc.GetTokens()` under some map iteration order? -/
-def tokensAccepted (d : Desc) (obs : List Nat) : Bool :=
-  if getTokens d == obs then true
-  else if d.length ≤ 7 then (perms d).any (fun p => getTokens p == obs)
-  else false
+/-- is `obs` what `Desc.GetTokens()` returns? (`PC01.getTokens_sorted`: the loser-tree merge does not
+depend on the map iteration order, so the id order is as good as any.) -/
+def tokensAccepted (d : Desc) (obs : List Nat) : Bool := getTokens d == obs
 
 def opName (op : Op) : String :=
   if op == opWrite then "W" else if op == opWriteNoExtend then "WN" else if op == opRead then "R"
